@@ -17,19 +17,27 @@ RULE = ("seeded random shot lists (repetitions, idle qubits, single shot, all-eq
         "frequency dict / ONE bit array (query, replace / overwrite / drop-and-append shots keeping their number, add_counts, "
         "fresh object in place of a dead one, then every statistic again, each judged on the current content; returned "
         "dicts/arrays are overwritten after each call; operator objects are reused): non-trivial when a length-preserving "
-        "change lies between two queries; distinct = distinct canonical JSON of the case")
+        "change lies between two queries; magnitudes: coefficients scaled by 2^-60..2^40 / 1e-12..1e9 (whole operator or "
+        "term by term, scale siblings of one operator on one Measurements object), 255..131073 shots (run-length coded: "
+        "near-unanimous, split by one, few outcomes), frequencies up to 2^52 that differ by one, widths 9..70 on every API, "
+        "numpy integer bits - all judged with tolerances proportional to |coefficient| resp. |c_i c_j|/denominator, never "
+        "absolute; distinct = distinct canonical JSON of the case")
 TRUSTED = [
     "numpy integer/float array arithmetic (sum, *, /, %, fancy indexing, reshape, 1-d broadcasting) computes the "
-    "element-wise real-number operations up to double rounding (model compared within 1e-9, exactly on dyadic inputs)",
+    "element-wise real-number operations up to double rounding (model compared within 1e-12 of the natural scale of each "
+    "entry: |c_i| for values, |c_i c_j| for correlations, 4|c_i c_j|/denominator for covariances, (keys+2)e-14 for the mean "
+    "from frequencies; exactly on dyadic inputs)",
     "collections.Counter / dict keep first-insertion order and count exact multiplicities (modelled as an association list)",
     "MeasurementOutcomeDistribution(d) keeps a dictionary whose values sum to 1 (math.isclose) unchanged and raises "
     "RuntimeError on {} or on keys of different lengths (its own behaviour belongs to C17)",
-    "CPython int/int true division is within 1e-12 of the exact quotient (distribution entries compared with that tolerance)",
+    "CPython int/int true division is within a RELATIVE 1e-12 of the exact quotient (distribution entries compared with that tolerance)",
     "PauliTerm.qubits is a set of distinct non-negative ints (hypothesis Nodup in the Lean theorems)",
 ]
 ASSUMPTIONS = ["coefficients are real (python int/float); bits are 0/1; the eigenvalue of Z on bit b is 1-2b",
                "theorems are over an arbitrary field of characteristic 0; the driver evaluates the same definitions at Rat"]
 TOL = 1e-9
+REL = Fraction(1, 10 ** 12)     # rounding allowance relative to the natural scale of an entry (about 4500 ulp)
+TINY = Fraction(1, 10 ** 300)   # absolute slack for underflow only
 
 
 def _mods():
@@ -104,6 +112,40 @@ def corpus():
                    {"do": "copy"}, {"do": "set", "key": "00", "value": 3}, {"do": "query", "marked": [0, 1], "as_set": True}]},
         {"kind": "pv_history", "rows": ["011", "110"],
          "steps": [{"do": "query", "marked": [0, 2]}, {"do": "flip", "row": 0, "col": 0}, {"do": "query", "marked": [0, 2]}]},
+        # ---- other orders of magnitude: small, large and mixed coefficients (all statistics scale with them)
+        {"kind": "ev", "shots": ["10", "01", "11", "10", "00"], "bessel": False, "exact": False,
+         "terms": [_t(Fraction(1, 4096), z(0)), _t(Fraction(-3, 8192), z(0, 1)), _t(Fraction(1, 100000), z(1)), _t(Fraction(1, 2048), [])]},
+        {"kind": "ev", "shots": ["10", "01", "11", "10", "00"], "bessel": True, "exact": False,
+         "terms": [_t(Fraction(1, 4096), z(0)), _t(Fraction(-3, 8192), z(0, 1)), _t(Fraction(1, 100000), z(1)), _t(Fraction(1, 2048), [])]},
+        {"kind": "ev", "shots": ["110", "011", "011", "000"], "bessel": False, "exact": True,
+         "terms": [_t(Fraction(5, 2 ** 42), z(0, 2)), _t(3 * 2 ** 30, z(2)), _t(Fraction(-7, 4), z(0, 1)), _t(Fraction(1, 2 ** 50), z(1))]},
+        {"kind": "ev", "shots": ["01", "11", "00"], "bessel": True, "exact": False, "np_bits": True,
+         "terms": [_t(2500000, z(0)), _t(Fraction(1, 10 ** 9), z(1)), _t(Fraction(7, 10 ** 8), z(0, 1)), _t(0, z(1))]},
+        # ---- very many shots: means next to +/-1 and next to 0, covariances ~ 1/shots^2, probabilities ~ 1/shots
+        {"kind": "ev", "rle": [["011", 69999], ["110", 2]], "bessel": False, "exact": False,
+         "terms": [_t(1, z(0)), _t(1, z(0, 1)), _t(-2, z(2)), _t(3, [])]},
+        {"kind": "ev", "rle": [["01", 50001], ["10", 50000]], "bessel": True, "exact": False,
+         "terms": [_t(1, z(0)), _t(Fraction(1, 2), z(1)), _t(1, z(0, 1))]},
+        {"kind": "parities", "rle": [["011", 65536], ["110", 1], ["111", 65536]], "terms": [_t(1, z(0)), _t(1, z(0, 1)), _t(1, [])]},
+        {"kind": "counts", "rle": [["011", 65537], ["110", 1]]},
+        {"kind": "dist", "rle": [["01", 99999], ["10", 1], ["11", 3]]},
+        {"kind": "add_counts", "shots": ["01"], "counts": [["01", 70000], ["10", 65536]]},
+        # ---- frequencies that nearly cancel / one dominant outcome: the mean is tiny resp. next to 1, not 0 resp. 1
+        {"kind": "freq", "marked": [0], "freq": [["01", 10 ** 12 + 1], ["11", 10 ** 12]]},
+        {"kind": "freq", "marked": [1, 0], "freq": [["01", 2 ** 50], ["11", 3], ["10", 1]], "as_set": True},
+        {"kind": "freq", "marked": [0], "freq": [["0", 500000001], ["1", 499999999]]},
+        # ---- wide registers on the other APIs
+        {"kind": "counts", "shots": ["0" * 64 + "1", "0" * 64 + "1", "1" + "0" * 64]},
+        {"kind": "dist", "shots": ["0" * 32 + "1", "0" * 32 + "1", "0" * 33]},
+        {"kind": "freq", "marked": [69, 3], "freq": [["0" * 69 + "1", 3], ["0" * 70, 1]]},
+        {"kind": "parity_vec", "rows": ["0" * 69 + "1", "0" * 70, "1" * 70], "marked": [69, 64, 0]},
+        # ---- one Measurements object asked for the same operator at three magnitudes
+        {"kind": "history", "init": [["00", "01", "11", "01", "10"]],
+         "operators": [[_t(2, z(0)), _t(-1, z(0, 1))], [_t(Fraction(2, 2 ** 40), z(0)), _t(Fraction(-1, 2 ** 40), z(0, 1))],
+                       [_t(2 * 10 ** 6, z(0)), _t(Fraction(-1, 10 ** 6), z(0, 1))]],
+         "steps": [{"do": "ev", "op": 0, "bessel": False}, {"do": "ev", "op": 1, "bessel": False}, {"do": "ev", "op": 2, "bessel": True},
+                   {"do": "setitem", "index": 1, "shot": "11"}, {"do": "ev", "op": 1, "bessel": True}, {"do": "ev", "op": 0, "bessel": True},
+                   {"do": "ev", "op": 2, "bessel": False}, {"do": "dist"}]},
     ]
 
 
@@ -146,6 +188,162 @@ def _terms(rng, w, nt, exact):
             c = Fraction(0)
         terms.append({"coeff": rat(Fraction(float(c))) if not exact else rat(c), "ops": ops})
     return terms
+
+
+POW2 = [-60, -40, -30, -20, -10, 10, 20, 40]
+DEC = ["1/1000", "1/10000", "1/100000", "1/1000000", "1/1000000000", "1/1000000000000", "3/10000", "7/100000000",
+       "1000", "1000000", "1000000000", "25000000"]
+MANY = [255, 256, 257, 1000, 4097, 32767, 32768, 65535, 65536, 65537, 70001, 100003, 131073, 262145]
+HUGE = [1000003, 1048577]
+WIDE64 = [63, 64, 65, 66, 70, 129, 257]
+WIDE = [9, 10, 11, 12, 16, 17, 31, 32, 33, 63, 64, 65, 70]
+
+
+def _rescale(rng, terms, mode=None):
+    """the same operator with other magnitudes: every coefficient times one factor ("pow2": exact in doubles;
+    "dec": a decimal factor) or every term times its own factor ("mixed": tiny and huge terms side by side).
+    Returns (terms, still exactly representable?)"""
+    mode = mode or rng.choice(["pow2", "dec", "mixed", "mixed2"])
+    out = []
+    if mode == "pow2":
+        f = Fraction(2) ** rng.choice(POW2)
+        return [{"coeff": rat(unrat(t["coeff"]) * f), "ops": t["ops"]} for t in terms], True
+    if mode == "dec":
+        f = Fraction(rng.choice(DEC))
+        return [{"coeff": rat(Fraction(float(unrat(t["coeff"]) * f))), "ops": t["ops"]} for t in terms], False
+    for t in terms:
+        if mode == "mixed2":
+            f = Fraction(2) ** rng.choice(POW2 + [0, 0])
+            out.append({"coeff": rat(unrat(t["coeff"]) * f), "ops": t["ops"]})
+        else:
+            f = Fraction(rng.choice(DEC + ["1", "1"]))
+            out.append({"coeff": rat(Fraction(float(unrat(t["coeff"]) * f))), "ops": t["ops"]})
+    return out, mode == "mixed2"
+
+
+def _rle(rng, w, n, style=None):
+    """n shots, run-length coded: nearly unanimous / split down the middle by one shot / a few outcomes"""
+    def bits():
+        return format(rng.randrange(2 ** w), f"0{w}b")
+    style = rng.random() if style is None else style
+    a = bits()
+    others = []
+    while len(others) < 3:
+        b = bits()
+        if b != a and b not in others:
+            others.append(b)
+        elif w == 1:
+            others.append("1" if a == "0" else "0")
+            break
+    others = list(dict.fromkeys(others))
+    if style < 0.4:
+        dev = [[b, rng.randrange(1, 3)] for b in others[: rng.randrange(1, len(others) + 1)]]
+        runs = [[a, n - sum(k for _, k in dev)]] + dev
+    elif style < 0.7:
+        runs = [[a, (n + 1) // 2], [others[0], n // 2]]
+        if n % 2 == 0:
+            runs = [[a, n // 2 + 1], [others[0], n // 2 - 1]]
+    else:
+        cut = sorted(rng.sample(range(1, n), min(len(others), 3)))
+        sizes = [y - x for x, y in zip([0] + cut, cut + [n])]
+        runs = [[b, k] for b, k in zip([a] + others, sizes)]
+    runs = [[b, k] for b, k in runs if k > 0]
+    rng.shuffle(runs)
+    assert sum(k for _, k in runs) == n and len({b for b, _ in runs}) == len(runs)
+    return runs
+
+
+def _magnitudes(rng, big):
+    """the same statistics at other orders of magnitude: small / large / mixed coefficients, very many shots,
+    huge frequencies that nearly cancel, wide registers - on every API the property names"""
+    cases = []
+    maxw, maxt = (8, 6) if big else (6, 5)
+    # -- coefficients of other magnitudes (values ~ c, correlations ~ c c', covariances ~ c c'/shots)
+    for i in range(240 if big else 40):
+        w = rng.randrange(1, maxw + 1)
+        exact = rng.random() < 0.4
+        n = rng.choice([1, 2, 4, 8, 16, 32, 64]) if exact else rng.choice([2, 3, 7, rng.randrange(1, 60), rng.randrange(1, 200 if big else 60)])
+        terms, still = _rescale(rng, _terms(rng, w, rng.randrange(2, maxt + 1), exact))
+        bessel = rng.random() < 0.4
+        c = {"kind": "ev", "shots": _shots(rng, w, n), "terms": terms, "bessel": bessel,
+             "exact": exact and still and not bessel}
+        if rng.random() < 0.1:
+            c["np_bits"] = True
+        cases.append(c)
+        if i % 4 == 0:  # tallies do not depend on the coefficients at all
+            cases.append({"kind": "parities", "shots": _shots(rng, w, n), "terms": terms})
+    # -- very many shots: means close to +/-1 or to 0, covariances ~ 1/shots^2, probabilities ~ 1/shots, tallies > 2^16
+    def many():
+        return rng.choice(MANY if rng.random() < 0.5 else [m for m in MANY if m > 65535])
+    for i in range(40 if big else 8):
+        w = rng.randrange(1, 7)
+        n = many()
+        runs = _rle(rng, w, n)
+        terms = _terms(rng, w, rng.randrange(2, 5), True)
+        if rng.random() < 0.3:
+            terms, _ = _rescale(rng, terms)
+        cases.append({"kind": "ev", "rle": runs, "terms": terms, "bessel": i % 2 == 0, "exact": False})
+        cases.append({"kind": "parities", "rle": _rle(rng, w, many()), "terms": terms})
+        runs2 = _rle(rng, w, many())
+        cases.append({"kind": "counts", "rle": runs2})
+        cases.append({"kind": "dist", "rle": runs2 if rng.random() < 0.5 else _rle(rng, w, many())})
+        cases.append({"kind": "add_counts", "shots": _shots(rng, w, rng.randrange(0, 4)),
+                      "counts": [[b, k] for b, k in _rle(rng, w, many())]})
+    # -- frequencies: huge totals, weights that nearly cancel (the mean is tiny but not zero), one dominant outcome
+    for i in range(150 if big else 30):
+        w = rng.randrange(1, 7)
+        marked = rng.sample(range(w), rng.randrange(1, w + 1))
+        base = rng.choice([10 ** 3, 10 ** 6, 10 ** 9, 10 ** 12, 2 ** 40, 2 ** 50, 10 ** 15])
+        style = rng.random()
+        if style < 0.5:  # as many keys of even as of odd parity on the marked qubits, weights equal up to +1 / +2
+            keys = []
+            for j in range(2 * rng.randrange(1, 4)):
+                b = list(format(rng.randrange(2 ** w), f"0{w}b"))
+                if sum(int(b[q]) for q in marked) % 2 != j % 2:
+                    b[marked[0]] = "1" if b[marked[0]] == "0" else "0"
+                keys.append("".join(b))
+            keys = list(dict.fromkeys(keys))
+            freq = [[kk, base + rng.randrange(0, 3)] for kk in keys]
+        else:
+            keys = list(dict.fromkeys(_shots(rng, w, rng.randrange(2, 7))))
+            if style < 0.8:
+                freq = [[kk, base if j == 0 else rng.randrange(1, 4)] for j, kk in enumerate(keys)]
+            else:
+                freq = [[kk, rng.randrange(1, base)] for kk in keys]
+        rng.shuffle(freq)
+        cases.append({"kind": "freq", "marked": marked, "freq": freq, "as_set": rng.random() < 0.5})
+    # -- wide registers on the remaining APIs (ev / parities have their own wide stream); the top qubit is marked often
+    for i in range(48 if big else 12):
+        w = rng.choice(WIDE if i % 2 else WIDE64)
+        n = rng.choice([1, 2, 5, rng.randrange(1, 30)])
+        shots = _shots(rng, w, n)
+
+        def marks(k):
+            qs = rng.sample(range(w), rng.randrange(1, k))
+            return list(dict.fromkeys(qs + ([w - 1 - rng.randrange(0, 2)] if rng.random() < 0.7 else [])))
+        cases.append({"kind": "counts", "shots": shots})
+        cases.append({"kind": "dist", "shots": shots})
+        keys = list(dict.fromkeys(_shots(rng, w, rng.randrange(1, 5))))
+        cases.append({"kind": "add_counts", "shots": shots[: rng.randrange(0, 3)], "counts": [[kk, rng.randrange(1, 5)] for kk in keys]})
+        cases.append({"kind": "freq", "marked": marks(5), "freq": [[kk, rng.randrange(1, 30)] for kk in keys], "as_set": rng.random() < 0.5})
+        cases.append({"kind": "parity_vec", "rows": _shots(rng, w, rng.randrange(1, 6)), "marked": marks(6)})
+        if i % 2 == 0:
+            terms = [{"coeff": rat(_dyadic(rng)), "ops": [[q, "Z"] for q in marks(4)]} for _ in range(3)]
+            terms.append({"coeff": terms[0]["coeff"], "ops": terms[0]["ops"][:1] + [[q, "Z"] for q in marks(3) if q != terms[0]["ops"][0][0]]})
+            cases.append({"kind": "ev", "shots": shots, "terms": terms, "bessel": False, "exact": False, "np_bits": rng.random() < 0.3})
+            cases.append({"kind": "parities", "shots": shots, "terms": terms})
+    # -- a million shots on a narrow register: probabilities ~ 1e-6, means within 1e-6 of +/-1 or of 0, covariances ~ 1e-12
+    for i in range(2 if big else 1):
+        w = rng.randrange(1, 4)
+        terms = _terms(rng, w, rng.randrange(2, 4), True)
+        cases.append({"kind": "ev", "rle": _rle(rng, w, rng.choice(HUGE), rng.choice([0.0, 0.0, 0.5])), "terms": terms,
+                      "bessel": rng.random() < 0.5, "exact": False})
+        runs = _rle(rng, w, rng.choice(HUGE), 0.0)
+        cases.append({"kind": "dist", "rle": runs})
+        if big:  # tallies and counts of this size are integers far below 2^53; the 2^16 / 2^17 boundaries are in MANY
+            cases.append({"kind": "parities", "rle": _rle(rng, w, rng.choice(HUGE)), "terms": terms})
+            cases.append({"kind": "counts", "rle": runs})
+    return cases
 
 
 def generate(rng, tier):
@@ -247,6 +445,9 @@ def generate(rng, tier):
     for i in range(80 if big else 15):
         cases.append(_freq_history(rng))
         cases.append(_pv_history(rng))
+    # ---- the same statistics at other magnitudes (a fresh generator: the streams above stay as they were)
+    import random as _random
+    cases += _magnitudes(_random.Random(rng.getrandbits(64)), big)
     return cases
 
 
@@ -265,6 +466,9 @@ def _history(rng, big):
     shadows = [_shots(rng, w, n) for _ in range(nobj)]
     init = [list(x) for x in shadows]
     operators = [_terms(rng, w, rng.randrange(1, 4), True) for _ in range(rng.randrange(1, 3))]
+    if rng.random() < 0.4:  # siblings of the first operator that differ from it in the magnitude of the coefficients only
+        for _ in range(rng.randrange(1, 3)):
+            operators.append(_rescale(rng, operators[0])[0])
     steps = []
 
     def query(kind, j):
@@ -359,6 +563,7 @@ def _overlap(terms):
 
 
 def nontrivial(c):
+    c = _norm(c)
     k = c["kind"]
     if k == "history":  # a query, a change of the shots that keeps their number, a query
         seen_q = False
@@ -384,12 +589,32 @@ def nontrivial(c):
 
 
 # ------------------------------------------------------------------ implementation
-def _tuples(shots):
-    return [tuple(int(ch) for ch in s) for s in shots]
+def _tuples(shots, np_bits=False):
+    if np_bits:  # bits as numpy integers of mixed width (what a simulator hands over); still 0/1
+        np = _mods()[0]
+        ty = [np.int8, np.int64, np.uint8, np.int32]
+        return [tuple(ty[(i + k) % 4](int(ch)) for k, ch in enumerate(s)) for i, s in enumerate(shots)]
+    memo = {}
+    return [memo.setdefault(s, tuple(int(ch) for ch in s)) for s in shots]
+
+
+def _norm(c):
+    """cases with very many shots carry them run-length coded ("rle": [[bitstring, multiplicity], ...])"""
+    if "rle" in c and "shots" not in c:
+        c = dict(c)
+        c["shots"] = [s for s, k in c["rle"] for _ in range(k)]
+    return c
 
 
 def _strs(tuples):
-    return ["".join(str(int(b)) for b in t) for t in tuples]
+    memo = {}
+    out = []
+    for t in tuples:
+        t = tuple(t)
+        if t not in memo:
+            memo[t] = "".join(str(int(b)) for b in t)
+        out.append(memo[t])
+    return out
 
 
 def _num(x):
@@ -657,7 +882,9 @@ def _pv_walk(c):
 
 def run_impl(c):
     np, Measurements, mm, pp, PauliSum, PauliTerm = _mods()
+    c = _norm(c)
     k = c["kind"]
+    npb = bool(c.get("np_bits"))
     if k == "history":
         return _run_history(c)
     if k == "freq_history":  # ONE dict object, edited in place between the calls
@@ -689,15 +916,15 @@ def run_impl(c):
                 outs.append(None)
         return {"steps": outs}
     if k == "ev":
-        return _guard(lambda: _obs_ev(Measurements(_tuples(c["shots"])), _operator(c, PauliSum, PauliTerm), c["bessel"]))
+        return _guard(lambda: _obs_ev(Measurements(_tuples(c["shots"], npb)), _operator(c, PauliSum, PauliTerm), c["bessel"]))
     if k == "parities":
-        return _guard(lambda: _obs_parities(_tuples(c["shots"]), _operator(c, PauliSum, PauliTerm)))
+        return _guard(lambda: _obs_parities(_tuples(c["shots"], npb), _operator(c, PauliSum, PauliTerm)))
     if k == "counts":
-        return _guard(lambda: _obs_counts(Measurements(_tuples(c["shots"]))))
+        return _guard(lambda: _obs_counts(Measurements(_tuples(c["shots"], npb))))
     if k == "add_counts":
-        return _guard(lambda: _obs_add_counts(Measurements(_tuples(c["shots"])), c["counts"]))
+        return _guard(lambda: _obs_add_counts(Measurements(_tuples(c["shots"], npb)), c["counts"]))
     if k == "dist":
-        return _guard(lambda: _obs_dist(Measurements(_tuples(c["shots"]))))
+        return _guard(lambda: _obs_dist(Measurements(_tuples(c["shots"], npb))))
     if k == "save":
         return _guard(lambda: _obs_save(Measurements(_tuples(c["shots"]))))
     if k == "freq":
@@ -712,6 +939,7 @@ WALKS = {"history": _walk, "freq_history": _fh_walk, "pv_history": _pv_walk}
 
 # ------------------------------------------------------------------ model
 def requests(c, out):
+    c = _norm(c)
     k = c["kind"]
     if k in WALKS:
         rs = []
@@ -750,13 +978,39 @@ def _close(impl, model, exact):
     return abs(a - b) <= Fraction(TOL) * (1 + abs(b))
 
 
-def _cclose(impl, model, exact):
+def _cclose(impl, model, exact, tol=None):
     if impl is None or model is None:
         return impl is None and model is None
-    return unrat(impl[1]) == 0 and _close(impl[0], model, exact)
+    if unrat(impl[1]) != 0:
+        return False
+    if exact or tol is None:
+        return _close(impl[0], model, exact)
+    return abs(unrat(impl[0]) - unrat(model)) <= tol
+
+
+def _ev_tols(c):
+    """rounding allowances of get_expectation_values, each proportional to the natural scale of the entry (never absolute:
+    a coefficient of 1e-6 is as legitimate as one of 1e6): |c_i| for a value, |c_i c_j| for a correlation,
+    4 |c_i c_j| / denominator for a covariance.  Returns (coefficients the code saw, tol_value, tol_corr, tol_cov)."""
+    cs = [unrat(t["coeff"]) for t in c["terms"]]
+    if c.get("exact") is False:
+        cs = [Fraction(float(x)) for x in cs]
+    n = len(c["shots"])
+    den = n - 1 if c["bessel"] else n
+    tv = [REL * abs(x) + TINY for x in cs]
+    tc = [[REL * abs(x * y) + TINY for y in cs] for x in cs]
+    tk = [[(4 * REL * abs(x * y) / den + TINY) if den > 0 else None for y in cs] for x in cs]
+    return cs, tv, tc, tk
+
+
+def _freq_tol(c):
+    """the mean of +/-1 values weighted by k frequencies is a sum of k quotients of magnitude <= 1 that add up to at most 1
+    in magnitude: the double result is within a few k ulp(1) of the exact one, however small that is"""
+    return Fraction(len(c["freq"]) + 2, 10 ** 14)
 
 
 def compare(c, out, resp):
+    c = _norm(c)
     if c["kind"] in WALKS:
         pos = 0
         for i, st, sub in WALKS[c["kind"]](c):
@@ -788,11 +1042,12 @@ def compare(c, out, resp):
         nt = len(c["terms"])
         if out["shape"] != [[nt], [nt, nt], [nt, nt]] or out["n_corr"] != 1 or out["n_cov"] != 1:
             return f"get_expectation_values: shapes {out['shape']} for {nt} terms"
-        if len(r["values"]) != nt or any(not _cclose(a, b, ex) for a, b in zip(out["values"], r["values"])):
+        _, tv, tc, tk = _ev_tols(c)
+        if len(r["values"]) != nt or any(not _cclose(a, b, ex, t) for a, b, t in zip(out["values"], r["values"], tv)):
             return f"get_expectation_values: values impl {out['values']} model {r['values']}"
-        for name in ("correlations", "covariances"):
-            for ri, rm in zip(out[name], r[name]):
-                if len(ri) != len(rm) or any(not _cclose(a, b, ex) for a, b in zip(ri, rm)):
+        for name, tols in (("correlations", tc), ("covariances", tk)):
+            for ri, rm, rt in zip(out[name], r[name], tols):
+                if len(ri) != len(rm) or any(not _cclose(a, b, ex, t) for a, b, t in zip(ri, rm, rt)):
                     return f"get_expectation_values: {name} impl {out[name]} model {r[name]}"
     elif k == "parities":
         want_v = [[rat(a), rat(b)] for a, b in r["values"]]
@@ -814,10 +1069,10 @@ def compare(c, out, resp):
         if [kk for kk, _ in out["dist"]] != [kk for kk, _ in r]:
             return f"get_distribution: keys impl {out['dist']} model {r}"
         for (_, a), (_, b) in zip(out["dist"], r):
-            if a is None or abs(unrat(a) - unrat(b)) > Fraction(1, 10 ** 12):
+            if a is None or abs(unrat(a) - unrat(b)) > REL * abs(unrat(b)):
                 return f"get_distribution: impl {out['dist']} model {r}"
     elif k == "freq":
-        if not _close(out["value"], r, False):
+        if out["value"] is None or abs(unrat(out["value"]) - unrat(r)) > _freq_tol(c):
             return f"get_expectation_value_from_frequencies: impl {out} model {r}"
     elif k == "parity_vec":
         if out["parity"] != [rat(x) for x in r]:
@@ -847,12 +1102,25 @@ def _domain(c):
     return True, w
 
 
-def _near(impl, want):
-    if impl is None:
+def _within(impl, want, tol):
+    """impl: [real, imaginary] as exact rationals of the doubles (None: not finite)"""
+    if impl is None or tol is None:
         return False
     if unrat(impl[1]) != 0:
         return False
-    return abs(unrat(impl[0]) - want) <= Fraction(TOL) * (1 + abs(want))
+    return abs(unrat(impl[0]) - want) <= tol
+
+
+def _show(x):
+    x = Fraction(x)
+    return str(x) if x.denominator < 10 ** 6 and abs(x.numerator) < 10 ** 9 else repr(float(x))
+
+
+def _showc(z):
+    if z is None:
+        return "a non-finite number"
+    re_, im = float(unrat(z[0])), float(unrat(z[1]))
+    return repr(re_) if im == 0 else repr(complex(re_, im))
 
 
 def _describe(st):
@@ -900,6 +1168,7 @@ def _oracle_history(c, out):
 
 
 def oracle(c, out):
+    c = _norm(c)
     k = c["kind"]
     if "exc" in out:
         return (f"{k}-unexpected-exception", f"{k}: implementation raised {out}")
@@ -926,39 +1195,40 @@ def oracle(c, out):
             return ("ev-raises", f"get_expectation_values raised {out} on an in-domain input")
         if not out.get("shots_intact", True):
             return ("ev-mutates-shots", "get_expectation_values modified the measured bitstrings")
-        cs = [unrat(t["coeff"]) for t in c["terms"]]
-        if c.get("exact") is False:
-            cs = [Fraction(float(x)) for x in cs]
+        cs, tv, tc, tk = _ev_tols(c)
         qs = [[q for q, _ in t["ops"]] for t in c["terms"]]
         nt = len(cs)
         if len(out["values"]) != nt or len(out["correlations"]) != nt or len(out["covariances"]) != nt:
             return ("ev-shape", f"{nt} terms but result shapes {out['shape']}")
+        multi = list(Counter(shots).items())  # the multiset of shots: (bitstring, how many shots show it)
+        eig = [[_eig(s, qs[i]) for s, _ in multi] for i in range(nt)]
         means = []
         for i in range(nt):
-            tot = Fraction(0)
-            for s in shots:
-                tot += _eig(s, qs[i])
-            want = cs[i] * tot / n
+            tot = 0
+            for (s, mult), e in zip(multi, eig[i]):
+                tot += mult * e  # sum over the shots of the term's +/-1 eigenvalue
+            want = cs[i] * Fraction(tot, n)
             means.append(want)
-            if not _near(out["values"][i], want):
+            if not _within(out["values"][i], want, tv[i]):
                 sig = "ev-constant-term" if not qs[i] else "ev-value"
-                return (sig, f"term {i} (qubits {qs[i]}, coefficient {cs[i]}): reported {out['values'][i]}, "
-                        f"coefficient x sample mean = {want}")
+                return (sig, f"term {i} (qubits {qs[i]}, coefficient {_show(cs[i])}): reported {_showc(out['values'][i])}, "
+                        f"coefficient x sample mean = {_show(want)} ({n} shots)")
+        den = n - 1 if c["bessel"] else n
         for i in range(nt):
             for j in range(nt):
-                tot = Fraction(0)
-                for s in shots:
-                    tot += (cs[i] * _eig(s, qs[i])) * (cs[j] * _eig(s, qs[j]))
-                corr = tot / n
-                if len(out["correlations"][i]) != nt or not _near(out["correlations"][i][j], corr):
-                    return ("ev-correlation", f"correlation[{i}][{j}] reported {out['correlations'][i][j]}, "
-                            f"sample mean of the product = {corr}")
-                den = n - 1 if c["bessel"] else n
+                tot = 0
+                for (s, mult), ei, ej in zip(multi, eig[i], eig[j]):
+                    tot += mult * ei * ej  # sum over the shots of the product of the two terms' eigenvalues
+                corr = cs[i] * cs[j] * Fraction(tot, n)
+                if len(out["correlations"][i]) != nt or not _within(out["correlations"][i][j], corr, tc[i][j]):
+                    return ("ev-correlation", f"correlation[{i}][{j}] reported {_showc(out['correlations'][i][j])}, "
+                            f"sample mean of the product = {_show(corr)} (coefficients {_show(cs[i])}, {_show(cs[j])}; {n} shots)")
                 if den != 0:
                     cov = (corr - means[i] * means[j]) / den
-                    if len(out["covariances"][i]) != nt or not _near(out["covariances"][i][j], cov):
-                        return ("ev-covariance", f"covariance[{i}][{j}] reported {out['covariances'][i][j]}, "
-                                f"(correlation - product of means)/{den} = {cov}")
+                    if len(out["covariances"][i]) != nt or not _within(out["covariances"][i][j], cov, tk[i][j]):
+                        return ("ev-covariance", f"covariance[{i}][{j}] reported {_showc(out['covariances'][i][j])}, "
+                                f"(correlation - product of means)/{den} = {_show(cov)} "
+                                f"(coefficients {_show(cs[i])}, {_show(cs[j])}; {n} shots, bessel={c['bessel']})")
     elif k == "parities":
         ok, w = _domain(c)
         if not ok:
@@ -972,17 +1242,18 @@ def oracle(c, out):
         nt = len(qs)
         if len(out["values"]) != nt:
             return ("parities-shape", f"{nt} terms, {len(out['values'])} tallies")
+        multi = list(Counter(shots).items())  # (bitstring, how many shots show it)
+        ones = [[sum(int(s[q]) for q in qs[i]) for s, _ in multi] for i in range(nt)]
         for i in range(nt):
-            even = sum(1 for s in shots if sum(int(s[q]) for q in qs[i]) % 2 == 0)
+            even = sum(mult for (s, mult), o in zip(multi, ones[i]) if o % 2 == 0)
             odd = len(shots) - even
-            if out["values"][i] != [even, odd]:
+            if out["values"][i] != [rat(even), rat(odd)]:
                 return ("parities-term", f"term {i} (qubits {qs[i]}): tallies {out['values'][i]}, shots with even/odd parity {[even, odd]}")
         for i in range(nt):
             for j in range(nt):
-                even = sum(1 for s in shots
-                           if (sum(int(s[q]) for q in qs[i]) + sum(int(s[q]) for q in qs[j])) % 2 == 0)
+                even = sum(mult for (s, mult), oi, oj in zip(multi, ones[i], ones[j]) if (oi + oj) % 2 == 0)
                 odd = len(shots) - even
-                if out["correlations"][i][j] != [even, odd]:
+                if out["correlations"][i][j] != [rat(even), rat(odd)]:
                     return ("parities-pair", f"pair ({i},{j}): tallies {out['correlations'][i][j]}, expected {[even, odd]}")
     elif k == "counts":
         shots = c["shots"]
@@ -993,12 +1264,13 @@ def oracle(c, out):
             return ("counts-duplicate-key", "a key appears twice")
         if sum(got.values()) != len(shots):
             return ("counts-sum", f"counts sum to {sum(got.values())}, {len(shots)} shots")
+        occurs = Counter(shots)
         for kk in sorted(set(shots) | set(got)):
-            want = sum(1 for s in shots if s == kk)
+            want = occurs.get(kk, 0)
             if got.get(kk, 0) != want or (kk in got and want == 0):
                 return ("counts-value", f"count of {kk!r} is {got.get(kk)}, occurs {want} times")
         if sorted(out["back"]) != sorted(shots):
-            return ("counts-roundtrip", f"from_counts(get_counts()) holds {sorted(out['back'])}, shots were {sorted(shots)}")
+            return ("counts-roundtrip", f"from_counts(get_counts()) holds {dict(Counter(out['back']))}, shots were {dict(Counter(shots))}")
         if dict(map(tuple, out["back_counts"])) != got:
             return ("counts-roundtrip", "get_counts(from_counts(counts)) differs from counts")
     elif k == "add_counts":
@@ -1008,12 +1280,12 @@ def oracle(c, out):
         for kk, v in c["counts"]:
             want += [kk] * max(v, 0)
         if sorted(out["bitstrings"]) != sorted(want):
-            return ("add-counts", f"after add_counts the shots are {sorted(out['bitstrings'])}, expected {sorted(want)}")
+            return ("add-counts", f"after add_counts the shots are {dict(Counter(out['bitstrings']))}, expected {dict(Counter(want))}")
         if dict(map(tuple, out["counts"])) != dict(Counter(want)):
             return ("add-counts", f"counts after add_counts {out['counts']} expected {dict(Counter(want))}")
         fresh = [kk for kk, v in c["counts"] for _ in range(max(v, 0))]
         if sorted(out["from_counts"]) != sorted(fresh):
-            return ("from-counts", f"from_counts holds {sorted(out['from_counts'])}, expected {sorted(fresh)}")
+            return ("from-counts", f"from_counts holds {dict(Counter(out['from_counts']))}, expected {dict(Counter(fresh))}")
     elif k == "dist":
         shots = c["shots"]
         if not shots or len({len(s) for s in shots}) > 1:
@@ -1025,8 +1297,9 @@ def oracle(c, out):
         if set(got) != set(cnt):
             return ("dist-keys", f"distribution keys {sorted(got)} vs measured {sorted(cnt)}")
         for kk, v in cnt.items():
-            if got[kk] is None or abs(unrat(got[kk]) - Fraction(v, len(shots))) > Fraction(1, 10 ** 12):
-                return ("dist-value", f"P({kk}) = {got[kk]}, count/shots = {v}/{len(shots)}")
+            if got[kk] is None or abs(unrat(got[kk]) - Fraction(v, len(shots))) > REL * Fraction(v, len(shots)):
+                return ("dist-value", f"P({kk}) = {got[kk] if got[kk] is None else repr(float(unrat(got[kk])))}, "
+                        f"count/shots = {v}/{len(shots)} = {v / len(shots)!r}")
     elif k == "freq":
         freq = c["freq"]
         ws = {len(kk) for kk, _ in freq}
@@ -1041,8 +1314,9 @@ def oracle(c, out):
                 return ("ev-width0-raises", f"get_expectation_value_from_frequencies on width-0 keys raised {out}")
             return ("freq-raise", f"get_expectation_value_from_frequencies raised {out}")
         want = sum(Fraction(v) * _eig(kk, c["marked"]) for kk, v in freq) / tot
-        if out["value"] is None or abs(unrat(out["value"]) - want) > Fraction(TOL):
-            return ("freq-value", f"expectation {out['value']}, weighted mean of eigenvalues {want}")
+        if out["value"] is None or abs(unrat(out["value"]) - want) > _freq_tol(c):
+            return ("freq-value", f"expectation {out['value'] if out['value'] is None else repr(float(unrat(out['value'])))}, "
+                    f"weighted mean of eigenvalues {want} = {float(want)!r}")
     elif k == "parity_vec":
         if "err" in out:
             return ("parity-vec-raise", f"check_parity_of_vector raised {out}")
@@ -1060,7 +1334,10 @@ def distribution(cases, outs):
             "ev_exact_compared": sum(1 for c in ev if c.get("exact")),
             "ev_with_constant_term": sum(1 for c in ev if any(not t["ops"] for t in c["terms"])),
             "ev_with_repeated_support": sum(1 for c in ev if len({tuple(sorted(q for q, _ in t["ops"])) for t in c["terms"]}) < len(c["terms"])),
-            "max_shots": max((len(c.get("shots", [])) for c in cases), default=0),
+            "max_shots": max((sum(k for _, k in c["rle"]) if "rle" in c else len(c.get("shots", [])) for c in cases), default=0),
+            "run_length_coded_cases": sum(1 for c in cases if "rle" in c),
+            "ev_rescaled_coefficients": sum(1 for c in ev if any(t["coeff"] != 0 and not (Fraction(1, 64) <= abs(unrat(t["coeff"])) <= 64)
+                                                                 for t in c["terms"])),
             "max_width": max((len(s) for c in cases for s in c.get("shots", [])), default=0),
             "max_terms": max((len(c.get("terms", [])) for c in cases), default=0),
             "histories": sum(1 for c in cases if c["kind"] in WALKS),
